@@ -141,6 +141,12 @@ class GraphicalModel:
         kopy = self.__class__()
         # Copy the source net
         kopy.source_net = nx.DiGraph(self.source_net)
+        # Do not share the mutable node states and graph level data with the original
+        for name, data in kopy.source_net.nodes(data=True):
+            if 'attr_dict' in data:
+                data['attr_dict'] = data['attr_dict'].copy()
+        if 'observed' in kopy.source_net.graph:
+            kopy.source_net.graph['observed'] = kopy.source_net.graph['observed'].copy()
         return kopy
 
     def __copy__(self, *args, **kwargs):
